@@ -231,3 +231,37 @@ def check_conditional_copies(chk, prog, tr, cp, fields, R1):
                    'copy_and_start_patching copies StoryState::%s only under a condition that does not test %s itself: '
                    'when that condition is false a non-empty %s is silently lost by every committed look-ahead'
                    % (n, n, n), cp.loc(blocks[0]))
+
+    # ---- function-start trimming marker
+    R4 = 'C01.function-trim-marker-cleared-on-whole-run'
+    chk.rule(R4, 'Where push_to_output_stream_individual ends function-start whitespace trimming (first real text inside a '
+             'function) it clears Element::function_start_in_output_stream on the whole run of Function frames at the top of '
+             'the call stack, i.e. the clearing store sits in a loop over the frames (or in a closure applied to them), not on '
+             'a single frame: with nested functions the outer frames keep a stale marker, and the next newline the outer '
+             'function writes after its callee returned is trimmed away (two lines fused).')
+    po = prog.fn('StoryState::push_to_output_stream_individual')
+    if chk.anchor(R4, 'StoryState::push_to_output_stream_individual', po):
+        stores = []
+        for g_ in prog.with_closures(po):
+            gg = cfg(g_)
+            inloop = set()
+            for h, tails in gg.loops_heads().items():
+                inloop |= gg.loop_body(h, tails)
+            for bb, si, s in g_.stmts():
+                if s['k'] == 'assign' and s['pl'].get('p') and s['pl']['p'][-1].get('n') == 'function_start_in_output_stream' \
+                        and s['rv']['k'] == 'use' and s['rv']['op'].get('k') == 'const':
+                    stores.append((g_, bb, si, bool(g_.parent) or bb in inloop))
+        if chk.anchor(R4, 'clearing store to function_start_in_output_stream', stores):
+            for i, (g_, bb, si, ok) in enumerate(stores):
+                chk.decide(R4, chk.key(R4, 'clear', '#%d' % i), ok, 'applied across the frames of the run',
+                           'push_to_output_stream_individual clears the function-start marker of a single call-stack frame '
+                           'only: enclosing function frames keep trimming after the first real text',
+                           g_.loc(bb, si))
+    # the marker is set where a frame is pushed
+    cpush = prog.fn('CallStack::push')
+    if chk.anchor(R4, 'CallStack::push', cpush):
+        sets = [1 for bb, si, s in cpush.stmts() if s['k'] == 'assign' and s['pl'].get('p')
+                and s['pl']['p'][-1].get('n') == 'function_start_in_output_stream']
+        chk.decide(R4, chk.key(R4, 'set-on-push'), bool(sets), 'CallStack::push records the output position',
+                   'CallStack::push no longer records function_start_in_output_stream: function-start trimming is lost',
+                   cpush.loc(0))
